@@ -486,3 +486,62 @@ Proof.
   - unfold numberish. rewrite H. reflexivity.
   - reflexivity.
 Qed.
+
+(** ** every value is a piece of the header (safety form for arbitrary text) *)
+Lemma substr_refl s : substr s s.
+Proof. exists [], []. rewrite app_nil_r. reflexivity. Qed.
+Lemma substr_trans a b c : substr a b -> substr b c -> substr a c.
+Proof.
+  intros [p [q ->]] [p' [q' ->]]. exists (p' ++ p), (q ++ q'). rewrite <- !app_assoc. reflexivity.
+Qed.
+Lemma trim_start_suffix s : exists p, s = p ++ trim_start s.
+Proof.
+  induction s as [|c s [p IH]]; [exists []; reflexivity|]. cbn [trim_start].
+  destruct (is_ows c); [exists (c :: p); cbn [app]; congruence|exists []; reflexivity].
+Qed.
+Lemma trim_end_prefix s : exists q, s = trim_end s ++ q.
+Proof.
+  unfold trim_end. destruct (trim_start_suffix (rev s)) as [p Hp]. exists (rev p).
+  rewrite <- rev_app_distr, <- Hp, rev_involutive. reflexivity.
+Qed.
+Lemma trim_ows_substr s : substr (trim_ows s) s.
+Proof.
+  unfold trim_ows. destruct (trim_start_suffix s) as [p Hp]. destruct (trim_end_prefix (trim_start s)) as [q Hq].
+  exists p, q. rewrite <- Hq. assumption.
+Qed.
+Lemma slice_substr lo hi h : substr (slice lo hi h) h.
+Proof.
+  unfold slice. exists (firstn lo h), (skipn (hi - lo) (skipn lo h)). rewrite firstn_skipn, firstn_skipn. reflexivity.
+Qed.
+Lemma slice_get_substr lo hi h x : slice_get lo hi h = Some x -> substr x h.
+Proof.
+  unfold slice_get. destruct (_ && _)%bool; [|discriminate]. intros H. inversion H; subst. apply slice_substr.
+Qed.
+
+Section Substr.
+  Variable parse_q : bytes -> option qclass.
+  Variable fo : bool.
+  Notation vals_in h := (Forall (fun v : bytes * qclass => substr (fst v) h)).
+
+  Lemma emit_substr header st e qs p out : vals_in header out -> vals_in header (lh_emit parse_q fo header st e qs p out).
+  Proof.
+    intros H. unfold lh_emit. destruct (slice_get st _ header) as [x|] eqn:Hs; [|assumption].
+    apply Forall_app. split; [assumption|]. constructor; [|constructor]. cbn [fst].
+    apply slice_get_substr in Hs. unfold ows_view. destruct fo; [|assumption].
+    eapply substr_trans; [apply trim_ows_substr|assumption].
+  Qed.
+  Lemma step_substr header p c s : vals_in header (lh_out s) -> vals_in header (lh_out (lh_step parse_q fo header p c s)).
+  Proof.
+    intros H. unfold lh_step. destruct (c =? 32); [assumption|]. destruct (c =? c_comma); cbn [lh_out]; [|assumption].
+    apply emit_substr. assumption.
+  Qed.
+  Lemma loop_substr header rest : forall p s,
+    vals_in header (lh_out s) -> vals_in header (lh_out (lh_loop parse_q fo header rest p s)).
+  Proof.
+    induction rest as [|c r IH]; intros p s H; cbn [lh_loop]; [assumption|]. apply IH, step_substr, H.
+  Qed.
+  Theorem list_header_values_substr_l header : vals_in header (list_header_gen parse_q fo header).
+  Proof.
+    unfold list_header_gen. cbv zeta. apply emit_substr, loop_substr. constructor.
+  Qed.
+End Substr.
